@@ -35,6 +35,12 @@ CtorVals(C, sup, checked) ==
 CtorInst(C, sup, checked) ==
   MkInst(C, [fv |-> CtorVals(C, sup, checked), set |-> {C.fs[j].n : j \in SupIdx(sup)}])
 
+(* instance.dict(set_only=True), recorded as << <<name, value>> .. >>: exactly the explicitly set fields *)
+(* of the instance x, each with the value the instance holds                                          *)
+SetDictOK(sd, x, names) ==
+  /\ {sd[i][1] : i \in DOMAIN sd} = names /\ Len(sd) = Cardinality(names)
+  /\ \A i \in DOMAIN sd : \E j \in DOMAIN x.fs : x.fs[j][1] = sd[i][1] /\ x.fs[j][2] = Dec(sd[i][2])
+
 (* names of the violated clauses of one recorded construction *)
 ConstructFails(e, seen) ==
   LET C == e.cls  sup == e.sup  checked == e.path = "ctor" IN
@@ -55,7 +61,10 @@ ConstructFails(e, seen) ==
                        \cup (IF e.hook = 1 THEN {} ELSE {"post-init-run-count"})
                        \cup (IF e.isfac = <<>> THEN {} ELSE {"factory-stored-uncalled"})
                        \cup (IF \E i \in DOMAIN e.ids : e.ids[i] \in seen THEN {"default-shared-between-instances"} ELSE {})
-                       \cup (IF e.path # "ctor" /\ e.verbatim = "F" THEN {"unchecked-not-verbatim"} ELSE {}))
+                       \cup (IF e.path # "ctor" /\ e.verbatim = "F" THEN {"unchecked-not-verbatim"} ELSE {})
+                       \cup (IF "setdict" \in DOMAIN e /\ Dec(e.out.x).k = "inst"
+                                 /\ ~SetDictOK(e.setdict, Dec(e.out.x), {C.fs[j].n : j \in SupIdx(sup)})
+                             THEN {"set-only-dict"} ELSE {}))
 
 (* the same observations on the data paths: the value itself is judged by the from_data clause *)
 CreatedFails(e, seen) ==
@@ -63,4 +72,7 @@ CreatedFails(e, seen) ==
   ELSE (IF e.hook = 1 THEN {} ELSE {"post-init-run-count"})
        \cup (IF e.isfac = <<>> THEN {} ELSE {"factory-stored-uncalled"})
        \cup (IF \E i \in DOMAIN e.ids : e.ids[i] \in seen THEN {"default-shared-between-instances"} ELSE {})
+       \cup (IF "setdict" \in DOMAIN e /\ e.ty.k = "cls" /\ Verdict(e.ty, e.val) = "A" /\ Dec(e.out.x).k = "inst"
+                 /\ ~SetDictOK(e.setdict, Dec(e.out.x), ClsImg(e.ty, e.val).set)
+             THEN {"set-only-dict"} ELSE {})
 =============================================================================
